@@ -191,9 +191,24 @@ def checkEnumConst (schema v : J) : Bool :=
     | some c => jsonEq 64 c v
     | none => true)
 
+/-- x = k·y for an integer k (exact decimals, y ≠ 0) -/
+def isMultiple (x y : Xsd.Dec) : Bool :=
+  let e := min x.exp10 y.exp10
+  let ax := x.mant * 10 ^ (x.exp10 - e).toNat
+  let ay := y.mant * 10 ^ (y.exp10 - e).toNat
+  ay != 0 && ax % ay == 0
+
+def multipleOk (schema v : J) : Bool :=
+  match schema.get "multipleOf", v with
+  | some (.num b), .num x => match decOf x, decOf b with
+    | some dx, some db => isMultiple dx db
+    | _, _ => false
+  | _, _ => true
+
 def checkBounds (schema v : J) : Bool :=
   boundOk "minimum" (· != .lt) schema v && boundOk "maximum" (· != .gt) schema v &&
-  boundOk "exclusiveMinimum" (· == .gt) schema v && boundOk "exclusiveMaximum" (· == .lt) schema v
+  boundOk "exclusiveMinimum" (· == .gt) schema v && boundOk "exclusiveMaximum" (· == .lt) schema v &&
+  multipleOk schema v
 
 def checkString (schema : J) (s : String) : Bool :=
   (match (schema.get "minLength").bind natOf with | some n => n ≤ s.length | none => true) &&
